@@ -216,6 +216,24 @@ func dischargeAll(obs []*Oblig, dir string, timeoutS int, workers int) {
 		if err := os.WriteFile(ob.SMT, []byte(header+text), 0o644); err != nil {
 			fatalf("write vc: %v", err)
 		}
+		if ob.Expect == "unsat" && ob.Goal != nil && !ob.Goal.IsTrue() {
+			// the same obligation without the hypotheses that contain products of two symbolic terms (a weaker
+			// hypothesis set: a proof from it is a proof); tried when the full form is not decided, because
+			// such products switch the solvers to nonlinear arithmetic even where the goal does not need them
+			var lin []*Term
+			dropped := 0
+			for _, h := range ob.Hyps {
+				if hasSymbolicProduct(h) {
+					dropped++
+					continue
+				}
+				lin = append(lin, h)
+			}
+			if dropped > 0 && !hasSymbolicProduct(ob.Goal) {
+				ob.linSMT = filepath.Join(dir, fmt.Sprintf("vc%04dl.smt2", i))
+				os.WriteFile(ob.linSMT, []byte(header+"; hypotheses with symbolic products omitted\n"+RenderVC(lin, ob.Goal, false)), 0o644)
+			}
+		}
 		if ob.AltGoal != nil && ob.Expect == "unsat" {
 			// the same proof obligation in its unsplit form: tried when the split part is not decided
 			ob.altSMT = filepath.Join(dir, fmt.Sprintf("vc%04da.smt2", i))
@@ -258,6 +276,18 @@ func dischargeAll(obs []*Oblig, dir string, timeoutS int, workers int) {
 				}
 				r = r2
 			}
+			if r.status != "unsat" && ob.Expect == "unsat" && ob.linSMT != "" {
+				if rl := solveRace(ob.linSMT, to, nil); rl.status == "unsat" {
+					rl.secs += r.secs
+					rl.backend += "(linear-hyps)"
+					for k, v := range r.all {
+						if _, ok := rl.all[k]; !ok {
+							rl.all[k] = v
+						}
+					}
+					r = rl
+				}
+			}
 			if r.status != "unsat" && ob.Expect == "unsat" && ob.altSMT != "" {
 				if ra := solveRace(ob.altSMT, to, nil); ra.status == "unsat" {
 					ra.secs += r.secs
@@ -286,4 +316,35 @@ func dischargeAll(obs []*Oblig, dir string, timeoutS int, workers int) {
 func recSensitive(file string) bool {
 	b, err := os.ReadFile(file)
 	return err == nil && strings.Contains(string(b), "define-funs-rec")
+}
+
+var symProdMemo = map[*Term]bool{}
+
+// hasSymbolicProduct: the term contains a product of two non-constant terms.
+func hasSymbolicProduct(t *Term) bool {
+	if v, ok := symProdMemo[t]; ok {
+		return v
+	}
+	r := false
+	if t.Op == "*" {
+		nc := 0
+		for _, a := range t.Args {
+			if !a.IsConst() {
+				nc++
+			}
+		}
+		if nc >= 2 {
+			r = true
+		}
+	}
+	if !r {
+		for _, a := range t.Args {
+			if hasSymbolicProduct(a) {
+				r = true
+				break
+			}
+		}
+	}
+	symProdMemo[t] = r
+	return r
 }
